@@ -16,6 +16,5 @@ CONSTANTS
 INVARIANT ImplRefinesReq
 INVARIANT MappingHolds
 INVARIANT GetFullOk
-INVARIANT GetFilteredOk
 INVARIANT EnumOk
 CHECK_DEADLOCK FALSE
